@@ -1,7 +1,7 @@
 (* C02 — write-through persistence: the byte image always reopens to the same state.  Statements are printed by Check below and compared with C02.expected.  PARTIAL: proved are the write-through of the FAT, of the directory (insert / remove / metadata updates / new directory sectors) and of the MiniFAT cells (every cached cell or entry equals its bytes on disk after every mutation), that the on-disk FAT and directory read back as open does return the cache (the directory followed by the blank slots of its last sector), the entry / header codec round trips in both modes, and that strict acceptance gives the same state as permissive.  Also proved (proofs/ReopenProofs.v): the REOPEN ROUND TRIP - for every state that is Coherent (header bytes = header computed from the cache, FAT / directory / MiniFAT cache = disk, tails FREE, tables valid; no DIFAT sectors, i.e. at most 109 FAT sectors) open in BOTH modes on the concatenated image succeeds and returns exactly the cached tables (directory followed by the blank slots of its last sector, free lists rebuilt in index order); Coherent holds for the fresh file of either version and, by a sound boolean checker, for reachable example states (storages, mini and regular streams, removals, second FAT sector, second directory sector, extended MiniFAT); the header field writes of allocation keep the header coherent.  Also proved (proofs/PersistProofs.v): PERSISTENCE OVER HISTORIES of the namespace - a stronger invariant PInv (Coherent + directory and MiniFAT chains disjoint + every entry well-formed and black + the table represents a tree) holds of the fresh file of either version, is preserved by create_storage, create_new_stream, remove_storage, remove_stream (of empty streams), the four metadata setters (unchanged state on their refusals), including the growth of the directory chain by a sector with a new FAT sector, and implies the round trip; hence for EVERY history of those calls and the queries (up to 6000 calls, each Ok or without effect) the bytes alone reopen in both modes to the cached state, at every prefix.  NOT proved: preservation by operations that move stream data (write, set_len, removal of non-empty streams, overwrite), and the DIFAT-sector regime; both are checked at every operation boundary of generated histories: the implementation's bytes, taken without flush, are reopened in both modes by the crate and by the model and all dumps compared. *)
 From Cfb.model Require Import Base Names DirEnt State Alloc Dir Mini Store Handle Open Cfb.
 From Cfb.gen Require Import Consts.
-From Cfb.proofs Require Import CoherenceProofs CodecProofs StrictProofs DirCoherence ReopenProofs ReadonlyTotal PersistProofs.
+From Cfb.proofs Require Import CoherenceProofs CodecProofs StrictProofs DirCoherence ReopenProofs ReadonlyTotal PersistProofs HistoryRefine Progress.
 Set Printing Width 110.
 
 (* every FAT cell update is on disk when the call returns *)
@@ -183,3 +183,15 @@ Theorem C02_persistence_example : ltac:(let t := type of Example.hist_persists i
 Proof. exact Example.hist_persists. Qed.
 Check C02_persistence_example.
 Print Assumptions C02_persistence_example.
+
+(* the same with NO hypothesis about the model's results: every covered call is Ok or refused without effect (proofs/Progress.v) *)
+Theorem C02_persistence_over_histories_unconditionally : ltac:(let t := type of persist_history_total in exact t).
+Proof. exact persist_history_total. Qed.
+Check C02_persistence_over_histories_unconditionally.
+Print Assumptions C02_persistence_over_histories_unconditionally.
+
+(* at every operation boundary *)
+Theorem C02_persistence_at_every_prefix_unconditionally : ltac:(let t := type of persist_every_prefix_total in exact t).
+Proof. exact persist_every_prefix_total. Qed.
+Check C02_persistence_at_every_prefix_unconditionally.
+Print Assumptions C02_persistence_at_every_prefix_unconditionally.
